@@ -14,14 +14,14 @@ CLIENT_ID = b"IOS02ac6d28-42d0-41e3-ad22-274d0aa491da"
 class SpaRig:
     event_delay = None
 
-    def __init__(self, world: World, snapshot="default.snapshot", sim_cls=None, tap=True):
+    def __init__(self, world: World, snapshot="default.snapshot", sim_cls=None, tap=True, addr=("10.0.0.1", 10022)):
         self.w = world
         from . import contracts
 
         contracts.install()
         self.tap = install_queue_tap() if tap else None
         path = snapshot if os.path.isabs(snapshot) else os.path.join(snapshot_dir(), snapshot)
-        self.sim = SimHost(world.net, path, sim_cls=sim_cls)
+        self.sim = SimHost(world.net, path, sim_cls=sim_cls, addr=addr)
         self.events = []
         self.event_delay = None  # optional callable(event) -> seconds the client handler suspends
         self.spa = None
